@@ -85,7 +85,7 @@ func (c01) Gen(tier string, seed int64) []fw.Unit {
 			}
 		}
 	}
-	nb := 60
+	nb := 160
 	if tier == "thorough" {
 		nb = len(all)
 	} else {
@@ -105,9 +105,9 @@ func (c01) Gen(tier string, seed int64) []fw.Unit {
 		}
 	}
 	// random contents
-	nr := 300
+	nr := 600
 	if tier == "thorough" {
-		nr = 3000
+		nr = 6000
 	}
 	classes := [][]byte{digitsAB, qrAlnumAB, printAB, allAB, highAB, upperAB}
 	for i := 0; i < nr; i++ {
